@@ -2,7 +2,6 @@ package p2pmux
 
 import (
 	"context"
-	"encoding/binary"
 	"sync"
 
 	"github.com/pkg/errors"
@@ -198,6 +197,9 @@ func (ms *muxedSwarm[A, C, Pub]) Tell(ctx context.Context, dst A, data p2p.IOVec
 	if err := ms.checkClosed(); err != nil {
 		return err
 	}
+	if p2p.VecSize(data) > ms.MTU() {
+		return p2p.ErrMTUExceeded
+	}
 	return ms.m.tell(ctx, ms.cid, dst, data)
 }
 
@@ -208,6 +210,9 @@ func (ms *muxedSwarm[A, C, Pub]) Receive(ctx context.Context, th func(p2p.Messag
 func (ms *muxedSwarm[A, C, Pub]) Ask(ctx context.Context, resp []byte, dst A, data p2p.IOVec) (int, error) {
 	if err := ms.checkClosed(); err != nil {
 		return 0, err
+	}
+	if p2p.VecSize(data) > ms.MTU() {
+		return 0, p2p.ErrMTUExceeded
 	}
 	return ms.m.ask(ctx, ms.cid, resp, dst, data)
 }
@@ -225,9 +230,9 @@ func (ms *muxedSwarm[A, C, Pub]) ParseAddr(data []byte) (A, error) {
 }
 
 func (ms *muxedSwarm[A, C, Pub]) MTU() int {
-	m := ms.m.swarm.MTU()
-	n := binary.PutVarint(make([]byte, binary.MaxVarintLen64), int64(m))
-	return m - n
+	// the size of the header depends on the channel
+	headerSize := p2p.VecSize(ms.m.muxFunc(ms.cid, nil))
+	return ms.m.swarm.MTU() - headerSize
 }
 
 func (ms *muxedSwarm[A, C, Pub]) LookupPublicKey(ctx context.Context, target A) (Pub, error) {
